@@ -1,5 +1,7 @@
 //! implrun <family> : one case per stdin line, one canonical observation per stdout line.
 //! Every case runs under catch_unwind; a panic is the observation `panic`.
+mod astdump;
+mod schemadump;
 mod util;
 include!(concat!(env!("OUT_DIR"), "/mods.rs"));
 
